@@ -37,8 +37,9 @@ def addExpect (e : List (Chan × List (Command × Bytes))) (c : Chan) (x : Comma
   | [] => [(c, [x])]
   | (c', xs) :: rest => if c' = c then (c', xs ++ [x]) :: rest else (c', xs) :: addExpect rest c x
 
-/-- Spec verdict at the end of a receive scenario: for every declared channel whose sub-stream is
-exactly the packets of its declared messages, the implementation's answers must be the expected ones. -/
+/-- Spec verdict at the end of a receive scenario: for every declared channel whose sub-stream ends with
+exactly the packets of its declared messages (whatever the channel carried before: a receiver in any
+state), the implementation's answers to those packets must be the expected ones. -/
 def endVerdict (st : St) : String :=
   let pkts := st.pkts.reverse
   let outs := st.implOuts.reverse
@@ -46,8 +47,13 @@ def endVerdict (st : St) : String :=
     | p :: ps, o :: os => if Spec.chanOf p = some c then o :: outsOfV c ps os else outsOfV c ps os
     | _, _ => []
   let applicable := st.expect.filter (fun (c, msgs) =>
-    msgs.all (fun x => x.2.length ≤ 7608) && Spec.sub c pkts == Spec.streamOf c msgs)
-  let bad := applicable.filter (fun (c, msgs) => !(outsOfV c pkts outs == Spec.expectedOuts c msgs))
+    let s := Spec.sub c pkts
+    let e := Spec.streamOf c msgs
+    msgs.all (fun x => x.2.length ≤ 7608) && e.length ≤ s.length && s.drop (s.length - e.length) == e)
+  let bad := applicable.filter (fun (c, msgs) =>
+    let o := outsOfV c pkts outs
+    let e := Spec.expectedOuts c msgs
+    !(o.drop (o.length - e.length) == e))
   if st.implBad && !applicable.isEmpty then "fail:receiver-crashed-while-channels-were-transmitting"
   else match bad with
     | [] => s!"ok\tchecked={applicable.length}"
